@@ -55,8 +55,8 @@ def honestPlan (S : SigScheme SK) (m : Bytes) (k : Key SK) (attach : Bool) (net 
   ⟨honestHdr S k attach net, m, honestSig S m k attach net, vk32 S k, honestAddr S k net,
     signerAddress k.role net (S.H28 (vk32 S k))⟩
 
-/-- parse ∘ render on the honest message with an arbitrary payload / signature / header address / key substituted
-(the tampering corollaries instantiate the substituted parts; completeness substitutes nothing) -/
+/-- parse ∘ render on the honest object with an arbitrary payload and signature in place of the signed ones
+(completeness substitutes nothing; `cip8_sound_payload_signature` substitutes altered ones) -/
 theorem plan_substituted (S : SigScheme SK) (k : Key SK) (attach : Bool) (net : Addr.Network)
     (hk : KeyOk S k) (hashLen : ∀ x, (S.H28 x).length = 28)
     (m' s' : Bytes) (hm : m'.length < 2^64) (hu : utf8Valid m' = true) (hs : s'.length < 2^64) :
